@@ -109,7 +109,7 @@ def client_opts(cfg):
     if cfg["m"]:
         o += ["-m", str(cfg["m"])]
     if cfg["M"] != 255:
-        o += ["-M", str(cfg["M"])]
+        o += ["-M", cfg.get("M_spelling") or str(cfg["M"])]        # (numbers on a command line are decimal however they are padded)
     if not cfg["lazy"]:
         o += ["-L", "0"]
     if cfg.get("interval"):
@@ -189,6 +189,8 @@ def run_tunnel(tag, cfg, seed, plan):
     t.why = None
     k = sim.k
     sim.fdmode = cfg.get("fdmode")
+    if cfg.get("domain"):
+        sim.domain = cfg["domain"]
     extra = []
     if cfg.get("lb"):
         extra.append("-c")
